@@ -555,6 +555,28 @@ def _async_lazy_harnesses(prop):
     return out
 
 
+def _async_temporaries_harnesses(prop):
+    """C09 `always complete`: the temporaries of a `->` operand expression (here a guard with a Drop) must be dropped
+    before the operand's result is awaited; the continuation can only finish once the guard is gone.  The step in which
+    the operand sits has ONE active branch (awaited directly) or several (handed to the joiner)."""
+    out = []
+    progs = [
+        ("one_branch", "join_async", "u8", "gate(p, code(K_POLL, 0, 0, 0), a) -> hold_guard().cont(3)", "a.wrapping_add(3)"),
+        ("lone_last_step", "join_async", "(u8, u8)", "gate(p, code(K_POLL, 0, 0, 0), a) ~-> hold_guard().cont(3), gate(0, code(K_POLL, 1, 0, 0), 7u8)", "(a.wrapping_add(3), 7)"),
+        ("both_active", "join_async", "(u8, u8)", "gate(p, code(K_POLL, 0, 0, 0), a) -> hold_guard().cont(3), gate(0, code(K_POLL, 1, 0, 0), 7u8) -> hold_guard().cont(1)", "(a.wrapping_add(3), 8)"),
+        ("try_lone_last_step", "try_join_async", "Result<(u8, u8), u8>", "gate(p, code(K_POLL, 0, 0, 0), Ok::<u8, u8>(a)) ~-> hold_guard().cont_r(3), gate(0, code(K_POLL, 1, 0, 0), Ok::<u8, u8>(7))", "Ok((a.wrapping_add(3), 7))"),
+    ]
+    for (name, mac, rty, body, exp) in progs:
+        b = "    let a: u8 = kani::any();\n    let p: u8 = kani::any(); kani::assume(p <= 1);\n    unsafe { HELD = 0; }\n"
+        b += "    let fut = %s! { %s };\n" % (mac, body)
+        b += "    let (out, _polls) = run(fut, 6);\n"
+        b += "    assert!(out.is_some(), \"C09: future did not complete although every branch could (a temporary of an operand expression was kept alive across an await)\");\n"
+        b += "    let r: %s = out.unwrap();\n    assert!(r == %s);\n" % (rty, exp)
+        hn = "%s_temporaries_%s" % (prop.lower(), name)
+        out.append(Harness(hn, harness_fn(hn, b, unwind=8), "%s! { %s }" % (mac, body), note="drop scope of operand temporaries vs await"))
+    return out
+
+
 def _async_harness(prop, mac, ds, starter="then"):
     """starter: the deferred operator a later step begins with; `then`: `~-> |f| gate-continuation`; `map` / `inspect`:
     `~|> g` resp. `~?? g` (cannot suspend themselves) followed IN THE SAME STEP by the gate continuation"""
@@ -625,7 +647,9 @@ def _async_harness(prop, mac, ds, starter="then"):
 # ======================================================================================
 
 FAMILIES = {
-    "C03": [fam_barrier_sync, fam_async],
+    # + named branches (`let n0 = ..`, `let mut n1 = ..`) whose later steps read the names: a step starts from the branch's NAME
+    "C03": [fam_barrier_sync, fam_async, lambda p, t: [_let_harness(p, mac, ds, mask) for mac in ("join", "try_join", "join_async")
+                                                       for (ds, mask) in [((2, 2), 3), ((2, 3, 1), 7)] if not (mac == "join_async" and len(ds) > 2)]],
     # + the grids of C17 with a block capture on every action: every element of the result is still its own branch's value
     "C04": [fam_pos, lambda p, t: [h for h in fam_names(p, t) if h.name.startswith("c17_names_")]],
     "C05": [fam_try],
@@ -734,6 +758,11 @@ CHAINS = [
      "r0.map_err({ |e: u8| e.wrapping_add(1) }).or_else({ |e: u8| if e > 9 { Ok::<u8, u8>(e) } else { Err(e) } }).or({ Err::<u8, u8>(7) }).map_err({ |e: u8| e.wrapping_mul(2) }).and_then({ |x: u8| Ok::<u8, u8>(x) })", "Result<u8, u8>", 0),
     ("init_binary", "    let x: u8 = kani::any();\n", "x & 0x0f | 1 .. pow(2)", "(x & 0x0f | 1).pow(2)", "u8", 0),
     ("init_unary", "    let y: i8 = kani::any(); kani::assume(y > -11 && y < 11);\n", "-y .. pow(2)", "(-y).pow(2)", "i8", 0),
+    # literal operands of the unary / binary / range kinds (a `-2` is `Unary(Neg, Lit)`, not a literal)
+    ("init_neg_literal", "    let k: u32 = kani::any(); kani::assume(k < 3);\n", "-2i8 .. pow(k)", "(-2i8).pow(k)", "i8", 4),
+    ("init_neg_literal_abs", "", "-7i8 .. abs() .. wrapping_add(3)", "(-7i8).abs().wrapping_add(3)", "i8", 0),
+    ("init_not_literal", "", "!1u8 .. count_ones()", "(!1u8).count_ones()", "u32", 0),
+    ("init_binary_literals", "    let k: u32 = kani::any(); kani::assume(k < 3);\n", "1u8 + 2u8 .. pow(k)", "(1u8 + 2u8).pow(k)", "u8", 4),
     ("init_cast", "    let x: u8 = kani::any();\n", "x as u16 .. wrapping_mul(300)", "(x as u16).wrapping_mul(300)", "u16", 0),
     ("init_ref", "    let x: u8 = kani::any();\n", "&x .. wrapping_add(1)", "(&x).wrapping_add(1)", "u8", 0),
     ("init_if", "    let x: u8 = kani::any();\n", "if x > 5 { Some(x) } else { None } |> |v: u8| v.wrapping_add(1)", "(if x > 5 { Some(x) } else { None }).map(|v: u8| v.wrapping_add(1))", "Option<u8>", 0),
@@ -833,6 +862,16 @@ WRAPS = [
     ("map_empty_inner", OO, "oo |> >>> <<< |> |v: Option<u8>| v.or(Some(7))", "oo.map(|v| v).map(|v: Option<u8>| v.or(Some(7)))", "Option<Option<u8>>", 0),
     ("map_deferred_wrapper", OO, "oo ~|> >>> |> %s <<< |> |v: Option<u8>| v.or(Some(7))" % (F1 % C(1)), "oo.map(|v| v.map(%s)).map(|v: Option<u8>| v.or(Some(7)))" % (F1 % C(1)), "Option<Option<u8>>", 0),
     ("map_block_capture_inside", OO, "oo |> >>> |> { let k = tag(code(K_CAP, 0, 0, 1), 3u8); move |x: u8| x.wrapping_add(k) } <<<", "{ let k = tag(code(K_CAP, 0, 0, 1), 3u8); oo.map(|v| v.map(move |x: u8| x.wrapping_add(k))) }", "Option<Option<u8>>", 0),
+    # block captures of ERROR operators inside the inner chain: evaluated once, before the step, also when the closure is
+    # never called or called once per item
+    ("err_block_capture_inside", OO, "oo |> >>> <| { tag(code(K_CAP, 0, 0, 1), Some(9u8)) } <<<",
+     "{ let k = tag(code(K_CAP, 0, 0, 1), Some(9u8)); oo.map(|v| v.or(k)) }", "Option<Option<u8>>", 0),
+    ("err_block_capture_inside_or_else", OO, "oo |> >>> <= { let k = tag(code(K_CAP, 0, 0, 2), 5u8); move || Some(k) } <<< |> |v: Option<u8>| v.or(Some(7))",
+     "{ let f = { let k = tag(code(K_CAP, 0, 0, 2), 5u8); move || Some(k) }; oo.map(|v| v.or_else(f)).map(|v: Option<u8>| v.or(Some(7))) }", "Option<Option<u8>>", 0),
+    ("err_block_capture_inside_per_item", OARR, "oa.into_iter() |> >>> <| { tag(code(K_CAP, 0, 0, 1), Some(9u8)) } <<< =>[] Vec<Option<u8>>",
+     "{ let k = tag(code(K_CAP, 0, 0, 1), Some(9u8)); oa.into_iter().map(|v| v.or(k)).collect::<Vec<Option<u8>>>() }", "Vec<Option<u8>>", 5),
+    ("err_block_capture_inside_map_err", RR, "rr !> >>> !> { let k = tag(code(K_CAP, 0, 0, 3), 2u8); move |e: u8| e.wrapping_add(k) } <<<",
+     "{ let f = { let k = tag(code(K_CAP, 0, 0, 3), 2u8); move |e: u8| e.wrapping_add(k) }; rr.map_err(|v| v.map_err(f)) }", "Result<u8, Result<u8, u8>>", 0),
     # depth 2 and 3
     ("depth2", OOO, "ooo |> >>> |> >>> |> %s <<< |> |v: Option<u8>| v.or(Some(7)) <<< |> |v: Option<Option<u8>>| v.or(Some(Some(8)))" % (F1 % C(1)),
      "ooo.map(|v| v.map(|v| v.map(%s)).map(|v: Option<u8>| v.or(Some(7)))).map(|v: Option<Option<u8>>| v.or(Some(Some(8))))" % (F1 % C(1)), "Option<Option<Option<u8>>>", 0),
@@ -1963,6 +2002,8 @@ def native_families(pid, tier):
         out += _c18_harnesses(pid, tier)
     if pid == "C09":
         out += _c09_tokio_harnesses(pid)
+        # native, not Kani: the boxed `dyn Future` continuations cost CBMC minutes per program
+        out += _async_temporaries_harnesses(pid)
     if pid == "C04":
         for mac, var in [("join_async_spawn", "plain"), ("try_join_async_spawn", "plain"), ("join_async_spawn", "then"), ("try_join_async_spawn", "map"), ("async_spawn", "plain")]:
             for ds in [(1, 2), (2, 1), (1, 2, 2), (2, 1, 3), (3, 1, 2), (1, 2, 3), (2, 1, 2, 2)]:
